@@ -118,6 +118,11 @@ Lemma mux_pools_no_use_after_put :
   /\ put_is_last_use "multiplex.switchboard.pickRandConn" = true.
 Proof. repeat split; vm_compute; reflexivity. Qed.
 
+(* ... in whatever function the Put is written (a helper that hands out a view of the buffer it has
+   already put back - a deferred Put followed by `return buf` - is a use after the Put) *)
+Lemma mux_no_pooled_object_used_after_put_anywhere : no_use_after_put_anywhere = true.
+Proof. vm_compute. reflexivity. Qed.
+
 (* ---- a blocked writer must not be able to stop the receive loop.  Writers hold writingM
    across the blocking send (Stream.Write / ReadFrom / Close -> obfuscateAndSend ->
    switchboard.send -> conn.Write); the send of one side completes only when the other side's
